@@ -249,9 +249,8 @@ impl<'buf, IO: Io> Connection<'_, 'buf, IO> {
             return Err(Error::Disconnected.into());
         }
         if let Err(err) = write_all(&mut self.io, packet).await {
-            if matches!(err, Error::WriteZero) {
-                return Err(err.into());
-            }
+            // Part of the packet may already be on the wire and nothing records how much, so the
+            // stream cannot be continued: this includes a transport that stops accepting bytes.
             warn!("QoS0 PUBLISH write failed");
             self.handle_disconnect();
             return Err(err.into());
